@@ -168,18 +168,6 @@ impl<S> IndexMap<S> {
 	{
 		Self::default()
 	}
-
-	pub fn contains_duplicate_keys(&self) -> bool {
-		unsafe {
-			for bucket in self.table.iter() {
-				if bucket.as_ref().is_redundant() {
-					return true;
-				}
-			}
-		}
-
-		false
-	}
 }
 
 impl<S: BuildHasher> IndexMap<S> {
